@@ -32,7 +32,7 @@ def check_c20(tier, replay):
         open(cases, "w").write(json.dumps(rp["case"]) + "\n")
         counts = {"replay": 1}
     else:
-        fams = ["F20", "F5"] if tier == "quick" else ["F20", "F1", "F5", "F4", "F8"]
+        fams = ["F20", "F5"] if tier == "quick" else ["F20", "F5", "F4"]
         # (the thorough tier adds families, not longer haystacks: every recorded step is validated by TLC, about
         # a million events a minute, and the families' thorough haystack sets would make 600 million events)
         cases, counts = S.gen_families(fams, "quick", work)
@@ -73,7 +73,7 @@ def check_c20(tier, replay):
             if e.get("ev") == "reset":
                 index[e["run"]] = (e["rid"], e["h"], e["sched"], e["matches"])
     t0 = time.time()
-    res = C.tlc("TraceSearcher", "TraceSearcher.cfg", env={"TRACE": trace}, workers=1, xmx="8g", timeout=2400, workdir=work, deque=True,
+    res = C.tlc("TraceSearcher", "TraceSearcher.cfg", env={"TRACE": trace}, workers=1, xmx="8g", timeout=3600, workdir=work, deque=True,
                 allow_violation=True)
     inv = res.violated_invariant()
     done = [j for j in res.jlines if j["kind"] == "searcherdone"]
